@@ -198,6 +198,8 @@ pub fn run(tier: Tier, seed: u64) -> i32 {
     }
     s.regress::<Iso, _>("world-differential", case);
     s.search("world-differential", "world-differential", tier.pick(800, 20000), iso_strategy, case);
+    // the plugin framework (reply path) is only reachable through the binary
+    crate::e2e::c14_e2e(&mut s);
     s.finish()
 }
 
